@@ -44,6 +44,8 @@ type bufAPI interface {
 
 var errInjectedReader = errors.New("injected reader error")
 
+var c19ReadFroms int // readfrom operations generated so far (pins the idle-source scenario)
+
 // an error that wraps io.EOF is an error like any other: only the bare io.EOF value ends ReadFrom silently
 var errWrappedEOF = fmt.Errorf("source truncated: %w", io.EOF)
 var errInjectedWriter = errors.New("injected writer error")
@@ -405,6 +407,15 @@ func runC19(r *run) {
 				last := readStep{randBytes(g.intn(300)), "eeogw"[g.intn(5)]}
 				if last.kind == 'g' {
 					last.chunk = nil
+				}
+				c19ReadFroms++
+				if c19ReadFroms%16 == 5 {
+					// a source that answers (0, nil) many times in a row before it goes on: ReadFrom keeps asking, as bytes.Buffer does
+					idle := []int{99, 100, 101, 250, 1, 512}[(c19ReadFroms/16)%6]
+					for k := 0; k < idle; k++ {
+						o.steps = append(o.steps, readStep{nil, 'n'})
+					}
+					o.steps = append(o.steps, readStep{[]byte("after the idle reads"), 'n'})
 				}
 				o.steps = append(o.steps, last)
 			case "writeto":
